@@ -94,6 +94,16 @@ def elem_src(style, e) -> str:
     if e == "CA":
         d = doc(style, desc_lines("CA"), "    ", params=[("x", "int", "tok_CA_p_x is a parameter.")], attrs=[("at", "int", "tok_CA_at_at is an attribute.")])
         return f"class CA:\n{d}\n\n    at: int = 1\n\n    def __init__(self, x: int):\n        ...\n\n" + fun_src(style, "CA.meth", "meth", "    ", "self") + "\n"
+    if e == "fc":
+        if style == "NUMPYDOC":
+            ind = "    "
+            L = [f'{ind}"""{desc_lines("fc")[0]}', f"{ind}{desc_lines('fc')[1]}", "", f"{ind}Parameters", f"{ind}----------", f"{ind}p : int", f"{ind}    tok_fc_p_p is a parameter.", "",
+                 f"{ind}Returns", f"{ind}-------", f"{ind}count : int", f"{ind}    tok_fc_ra is named.", f"{ind}str", f"{ind}    tok_fc_rb is unnamed.",
+                 f"{ind}float", f"{ind}    tok_fc_rc is unnamed too.", f'{ind}"""']
+            d = "\n".join(L)
+        else:
+            d = doc(style, desc_lines("fc"), "    ", params=[("p", "int", "tok_fc_p_p is a parameter.")])
+        return f"def fc(p: int) -> tuple[int, str, float]:\n{d}\n    ...\n\n"
     if e == "CC":
         return "class CC:\n    at: int = 3\n\n    def plainmeth(self, p: int) -> int:\n        ...\n\n"
     d = doc(style, desc_lines("CB"), "    ")
@@ -105,6 +115,7 @@ for o in ("fa", "fb", "CA.meth", "CB.meth"):
     DECODE[f"tok_{und(o)}_desc"] = (o, "desc")
     DECODE[f"tok_{und(o)}_p_p"] = (o, "p_p")
     DECODE[f"tok_{und(o)}_res"] = (o, "res")
+DECODE.update({"tok_fc_desc": ("fc", "desc"), "tok_fc_p_p": ("fc", "p_p"), "tok_fc_ra": ("fc", "ra"), "tok_fc_rb": ("fc", "rb"), "tok_fc_rc": ("fc", "rc")})
 DECODE.update({"tok_fa_ex": ("fa", "ex"), "tok_CA_desc": ("CA", "desc"), "tok_CB_desc": ("CB", "desc"), "tok_CA_p_x": ("CA", "p_x"), "tok_CA_at_at": ("CA.at", "at")})
 
 
@@ -112,6 +123,7 @@ def comment_facts(decl_path: str, d) -> tuple[list, list, str]:
     """tokens with their tag, description lines, normalised comment text"""
     lines = sds.doc_lines(d.doc)
     found, desc, tag, tagname, in_desc = [], [], "desc", "", True
+    sigres = [r["name"] for r in (d.results or [])]
     for ln in lines:
         s = ln.strip()
         if s.startswith("@param"):
@@ -129,9 +141,9 @@ def comment_facts(decl_path: str, d) -> tuple[list, list, str]:
         for t in TOK.findall(s):
             if t in DECODE:
                 o, it = DECODE[t]
-                found.append({"owner": o, "item": it, "decl": decl_path, "tag": tag, "tagname": tagname})
+                found.append({"owner": o, "item": it, "decl": decl_path, "tag": tag, "tagname": tagname, "sigres": sigres})
             else:
-                found.append({"owner": "?" + t, "item": "?", "decl": decl_path, "tag": tag, "tagname": tagname})
+                found.append({"owner": "?" + t, "item": "?", "decl": decl_path, "tag": tag, "tagname": tagname, "sigres": sigres})
     return found, desc, "\n".join(lines)
 
 
@@ -186,7 +198,7 @@ def main(v: Verdict) -> None:
             obs.append({"id": f"replay:{style}:{k}", "kind": "replay", "obs": {"style": style, "steps": steps}})
     n_replay = len(obs)
     # ---- (ii) end to end: every order of four documented elements, four styles
-    orders = generate(v, "DocAttach", "C13b_MC.cfg", min_records=24)
+    orders = generate(v, "DocAttach", "C13b_MC.cfg", min_records=720)
     jobs, meta = [], []
     for style in ["PLAINTEXT", *STYLES]:
         files = {"__init__.py": ""}
@@ -213,7 +225,7 @@ def main(v: Verdict) -> None:
                 fnd, desc, text = comment_facts(path, d)
                 found += fnd
                 texts[path] = text
-                if path in ("fa", "fb", "CA", "CB", "CA.meth", "CB.meth"):
+                if path in ("fa", "fb", "fc", "CA", "CB", "CA.meth", "CB.meth"):
                     lines.append({"decl": path, "text": desc})
             obs.append({"id": f"module:{style}:{mod}", "kind": "module", "obs": {"style": style, "found": found, "lines": lines}})
             per_style.setdefault(mod, {})[style] = texts
